@@ -96,6 +96,8 @@ def task(arg):
     lf = retmodel.Lifter(year, K, S, forms_req, ft='uf', timeout_ms=30000)
     rm = lf.rm
     res = {'year': year, 'obl': [], 'viol': [], 'samples': [], 'uncovered': [], 'twins': {}, 'always_zero': []}
+    res['model_paths'] = sum(len(v) for v in rm.summ.values())
+    res['model_lines'] = len(rm.summ)
     st = tm.var('i:1040.filing_status', 'I')
     members = [m.name for m in rm.cat.input('1040.filing_status').enum]
 
@@ -124,6 +126,11 @@ def task(arg):
             E = tm.sub(op(expr[1]), op(expr[2]))
             if expr[3]:
                 E = tm.max_(tm.R(0), E)
+        elif k == 'sub_ceil':
+            d_ = tm.sub(op(expr[1]), op(expr[2]))
+            step = tm.R(expr[3])
+            up = tm.mul(step, tm.to_real(tm.neg(tm.floor(tm.neg(tm.div(d_, step))))))
+            E = tm.ite(tm.le(d_, tm.R(0)), tm.R(0), up)
         elif k == 'mul_rate':
             E = tm.mul(tm.R(expr[2]), op(expr[1]))
         elif k == 'mul_const':
@@ -189,7 +196,9 @@ def run(tier):
     c.extra['coverage_of_instruction_oracle'] = cov
     results = common.pmap(task, tasks)
     unc = []
+    mp = {}
     for r in results:
+        mp[r['year']] = (r.get('model_lines', 0), r.get('model_paths', 0))
         for nm, res, dt in r['obl']:
             c.obligation(nm, res, dt)
         for k_, n_ in r['twins'].items():
@@ -206,4 +215,6 @@ def run(tier):
                 c.spurious += 1
                 c.inconclusive.append('witness did not reproduce: %s (%s)' % (v['key'], out.get('detail')))
     c.extra['instructed_lines_not_reachable_or_unimplemented_source'] = sorted(set(unc))[:80]
+    c.paths += sum(v[1] for v in mp.values())
+    c.extra['whole_return_model'] = {str(y): {'lines': v[0], 'symbolic_paths_composed': v[1]} for y, v in mp.items()}
     return c.finish()
